@@ -54,9 +54,7 @@ theorem run_preserves_inv (steps : List Step) (st st' : St) (hok : ∀ s ∈ ste
     data-tainted is written raw (and every register and every open capture satisfies the invariant) -/
 theorem no_raw_tainted_meta : C02_full := by
   intro steps st hok hr
-  have init : StInv ({} : St) :=
-    ⟨fun v hv => (by cases hv), fun b hb => (by cases hb), Clean.nil⟩
-  exact (run_preserves_inv steps {} st hok init hr).2.2
+  exact (run_preserves_inv steps {} st hok stInv_init hr).out_clean
 
 /-- the same for the state reached from any state satisfying the invariant (e.g. a context that
     already holds captured values), including registers and open captures -/
@@ -64,23 +62,23 @@ theorem no_raw_tainted_meta_from (steps : List Step) (st st' : St) (hok : ∀ s 
     (h : StInv st) (hr : run steps st = some st') :
     Clean st'.out ∧ (∀ b ∈ st'.caps, Clean b) ∧ ∀ v ∈ st'.pool, Inv v :=
   let r := run_preserves_inv steps st st' hok h hr
-  ⟨r.2.2, r.2.1, r.1⟩
+  ⟨r.out_clean, r.2.1, r.1⟩
 
 /-- **escaped once**: ending a capture in Html mode and printing the captured value in Html mode
     writes exactly the captured text into the enclosing target — byte for byte, nothing is escaped
     a second time (set-block, filter-block, `super()`, recursive loop call) -/
-theorem escaped_once (st : St) (buf : TStr) (rest : List TStr) (hc : st.caps = buf :: rest) :
-    run [.endCapture .html, .emit .html st.pool.length] st =
+theorem escaped_once (st : St) (buf : TStr) (rest : List TStr) (hc : st.caps = buf.reverse :: rest) :
+    run [.endCapture .html, .emit .html st.pool.size] st =
       some (({ st with caps := rest }.push (.str buf true)).write buf) := by
   have e : (Mode.html != Mode.none) = true := by decide
-  simp [run, Step.run, hc, capturedValue, St.push, writeEscaped, e]
+  simp [run, Step.run, hc, capturedValue, St.push_eq, writeEscaped, e]
 
 /-- the same for the result of a macro or call block (`Macro::call`) -/
-theorem escaped_once_macro (st : St) (buf : TStr) (rest : List TStr) (hc : st.caps = buf :: rest) :
-    run [.macroReturn .html, .emit .html st.pool.length] st =
+theorem escaped_once_macro (st : St) (buf : TStr) (rest : List TStr) (hc : st.caps = buf.reverse :: rest) :
+    run [.macroReturn .html, .emit .html st.pool.size] st =
       some (({ st with caps := rest }.push (.str buf true)).write buf) := by
   have e : (Mode.html != Mode.none) = true := by decide
-  simp [run, Step.run, hc, capturedValue, St.push, writeEscaped, e]
+  simp [run, Step.run, hc, capturedValue, St.push_eq, writeEscaped, e]
 
 /-- a capture taken while auto-escaping is off is *not* marked, so printing it in Html mode escapes
     it (it satisfies the invariant whatever was written into it) -/
@@ -167,7 +165,7 @@ example : (run demo {}).map (fun st => text st.out) = some
 
 example : text (htmlEscape (ofData "<a href=\"x\">'&/")) = "&lt;a href=&quot;x&quot;&gt;&#x27;&amp;&#x2f;" := by decide
 example : ∃ st : St, StInv st ∧ st.caps = [ofData "a" ++ ofTmpl "&lt;"] := ⟨{ caps := [ofData "a" ++ ofTmpl "&lt;"] },
-  ⟨fun v hv => (by cases hv), (by decide), Clean.nil⟩, rfl⟩
+  ⟨fun v hv => (by simp [Array.mem_def] at hv), (by decide), Clean.nil⟩, rfl⟩
 example : (replaceF .html [.str (ofData "<α>") false, .str (ofData "α") false, .str (ofTmpl "<b>") true]).map
     (fun v => v.display |> text) = some "&lt;<b>&gt;" := by decide
 example : Forwards (defaultF false) := by
